@@ -84,6 +84,13 @@ def version_shapes():
             rows += vals[0] + "\n" + "".join(" ".join(vals[k:k + 7]) + "\n" for k in range(1, nc, 7))
         out.append(("versions:wrap-flag-%s-%d" % (flag, nc), "~Version\nVERS. 2.0 : version\nWRAP. %s : wrap\n" % flag + well20
                     + "~Curve\nDEPT.M : depth\n" + curves + "~ASCII\n" + rows))
+    # many curves (a LAS 1.2 data line then exceeds 255 characters; 28 and 35 are multiples of the 7 fields of a 79-character line)
+    for vers, wl in (("1.2", well12), ("2.0", well20)):
+        for nc in (24, 28, 35):
+            curves = "".join("C%d.U : curve %d\n" % (j, j) for j in range(1, nc))
+            rows = "".join(" ".join("%d.5" % (100 * (i + 1) + j) for j in range(nc)) + "\n" for i in range(3))
+            out.append(("versions:wide-%s-%d" % (vers, nc), "~Version\nVERS. %s : version\nWRAP. NO : wrap\n" % vers + wl
+                        + "~Curve\nDEPT.M : depth\n" + curves + "~ASCII\n" + rows))
     # header values with runs of blanks / tabs inside (2, 5 and 9 blanks, a tab)
     out.append(("versions:value-blank-runs", "~Version\nVERS. 2.0 : version\nWRAP. NO : wrap\n" + well20.replace(
         "COMP. ACME : company", "COMP. ACME  OIL     AND         GAS\tLTD : company").replace("WELL. W-1 : well", "LOC. 12-34-56     W5M : location\nWELL. W-1 : well")
